@@ -177,8 +177,21 @@ pub fn box_menu(thorough: bool) -> Vec<BoxSpec> {
     v
 }
 
+/// Extreme length scales (the tessellation is scale free: every tolerance of the library must be relative):
+/// a box of about 1e-12 length units and one of about 1e6 far from the origin. (A 2D/1D box is a slab of unit
+/// thickness: at 1e6 its aspect ratio already costs 1e-10 of relative accuracy in the face areas, which are norms
+/// of 3D cross products; 1e12 would cost 1e-4 and is conditioning, not a defect.)
+pub fn scaled_boxes() -> Vec<BoxSpec> {
+    let t = (2f64).powi(-40);
+    let h = (2f64).powi(20);
+    vec![
+        BoxSpec { name: "bt", anchor: v3(0., 0., 0.), width: v3(t, 2. * t, t) },
+        BoxSpec { name: "bh", anchor: v3(h, -2. * h, 0.), width: v3(h, h, 2. * h) },
+    ]
+}
+
 pub fn box_by_name(name: &str) -> Option<BoxSpec> {
-    box_menu(true).into_iter().find(|b| b.name == name)
+    box_menu(true).into_iter().chain(scaled_boxes()).find(|b| b.name == name)
 }
 
 /// Garbage written into the unused axes of 1D/2D inputs.
@@ -409,6 +422,28 @@ pub fn e1_families(thorough: bool, dims: &[usize], periodic_opts: &[bool]) -> Ve
             }
         }
     }
+    // extreme length scales. Reflective boxes use alphabets without wall contact (general-position pool and the
+    // cell-centred lattice, which still has exact ties everywhere): a generator on a wall of the tiny box is the
+    // known finding R11 (C05 family E); periodic boxes have no walls and use the ordinary lattices.
+    for &dim in dims {
+        for &periodic in periodic_opts {
+            for b in &scaled_boxes() {
+                let mut add = |alpha: &str, pool: Vec<DVec3>, k: usize| {
+                    fams.push(Family { dim, periodic, bx: *b, alpha: alpha.to_string(), pool, k });
+                };
+                let extra = usize::from(thorough);
+                add("G", generic_points(b, dim), 3 + extra);
+                match (dim, periodic) {
+                    (3, true) => add("L3a", lattice_points(L3A, b, 3, true), 3 + extra),
+                    (2, true) => add("L2", lattice_points(L2, b, 2, true), 2 + extra),
+                    (1, true) => add("L1", lattice_points(L1, b, 1, true), 3 + extra),
+                    (1, false) => add("L4c", centred_lattice_points(4, b, 1), 4),
+                    (d, false) => add("L2c", centred_lattice_points(2, b, d), 3 + extra),
+                    _ => {}
+                }
+            }
+        }
+    }
     fams
 }
 
@@ -618,4 +653,85 @@ pub fn masks_menu_min(n: usize, full_upto: usize) -> Vec<Option<Vec<bool>>> {
     m.push(Some((0..n).map(|i| i == 0).collect()));
     m.push(Some((0..n).map(|i| i == n - 1).collect()));
     m
+}
+
+// ---------------------------------------------------------------------------------------------
+// Big-cell states: one cell with many planes / many vertices / large faces / large removed sets
+
+struct Lcg(u64);
+impl Lcg {
+    fn next(&mut self) -> f64 {
+        self.0 = self.0.wrapping_mul(6364136223846793005).wrapping_add(1442695040888963407);
+        (self.0 >> 11) as f64 / (1u64 << 53) as f64
+    }
+}
+
+/// Slightly irregular ring of m points (fractions of the box) in the plane z = 1/2 about the axis x = y = 1/2.
+fn ring_fracs(m: usize, radius: f64) -> Vec<DVec3> {
+    (0..m)
+        .map(|i| {
+            let a = 2. * std::f64::consts::PI * (i as f64 + 0.3) / m as f64 + 0.01 * (3. * i as f64).sin();
+            v3(0.5 + radius * a.cos(), 0.5 + radius * a.sin(), 0.5)
+        })
+        .collect()
+}
+
+/// `axis`: two generators on the axis of a ring of m generators: their shared face has m vertices.
+/// `prism`: a central generator, a ring of m neighbours (its cell is an m-sided prism) and one neighbour straight
+///  above whose bisector removes all m top vertices in a single clip.
+/// `shell`: a central generator inside a jittered Fibonacci shell of m neighbours: about m planes and 2m-4 vertices.
+pub fn bigcell_state(kind: &str, m: usize, b: &BoxSpec) -> State {
+    let mut fr: Vec<DVec3> = vec![];
+    match kind {
+        "axis" => {
+            fr.push(v3(0.5, 0.5, 0.3));
+            fr.push(v3(0.5, 0.5, 0.7));
+            fr.extend(ring_fracs(m, 0.3));
+        }
+        "prism" => {
+            fr.push(v3(0.5, 0.5, 0.5));
+            fr.extend(ring_fracs(m, 0.3));
+            fr.push(v3(0.5, 0.5, 0.9));
+        }
+        _ => {
+            let mut rng = Lcg(0x5eed_0000 + m as u64);
+            fr.push(v3(0.5, 0.5, 0.5));
+            for k in 0..m {
+                let z = 1. - 2. * (k as f64 + 0.5) / m as f64;
+                let phi = k as f64 * 2.399963229728653 + 0.05 * rng.next();
+                let r = (1. - z * z).sqrt();
+                let dir = v3(r * phi.cos(), r * phi.sin(), z);
+                fr.push(v3(0.5, 0.5, 0.5) + (0.3 + 0.002 * rng.next()) * dir);
+            }
+        }
+    }
+    State {
+        id: format!("3R|{}|{}{}", b.name, kind, m),
+        dim: 3,
+        periodic: false,
+        anchor: b.anchor,
+        width: b.width,
+        gens: fr.iter().map(|f| b.anchor + *f * b.width).collect(),
+    }
+}
+
+pub fn bigcell_family(thorough: bool) -> Vec<State> {
+    let mut out = vec![];
+    let boxes = box_menu(false);
+    let rings: &[usize] = if thorough { &[5, 12, 16, 17, 24, 32, 33, 40, 64, 65, 72, 100] } else { &[5, 17, 33, 40] };
+    let shells: &[usize] = if thorough { &[20, 40, 63, 66, 70, 100, 130, 160] } else { &[30, 70] };
+    for (bi, b) in boxes.iter().enumerate() {
+        // the cubic box and the offset box (b1 is too flat for a ring of radius 0.3 to produce the intended shapes)
+        if bi == 1 {
+            continue;
+        }
+        for &m in rings {
+            out.push(bigcell_state("axis", m, b));
+            out.push(bigcell_state("prism", m, b));
+        }
+        for &m in shells {
+            out.push(bigcell_state("shell", m, b));
+        }
+    }
+    out
 }
